@@ -182,6 +182,17 @@ static cJSON *good_fold_in_false_arm(cJSON *o, const char *n, const cJSON_bool c
     }
     return cJSON_DetachItemFromObjectCaseSensitive(o, n);
 }
+/* a helper without the flag that hands `true` on: below it the case-insensitive variant compares exactly */
+static cJSON *h_exact_lookup(cJSON *o, const char *n) { return get_object_item(o, n, 1); }
+static cJSON *bad_TAB11_exact_helper(cJSON *o, const char *n, const cJSON_bool case_sensitive) { (void)case_sensitive; return h_exact_lookup(o, n); }
+static cJSON *good_exact_in_true_arm(cJSON *o, const char *n, const cJSON_bool case_sensitive)
+{
+    if (case_sensitive)
+    {
+        return h_exact_lookup(o, n);
+    }
+    return get_object_item(o, n, case_sensitive);
+}
 cJSON *bad_TAB11_lookupCaseSensitive(cJSON *o, const char *n) { return get_object_item(o, n, 0); }
 cJSON *good_lookupCaseSensitive(cJSON *o, const char *n) { return get_object_item(o, n, 1); }
 
@@ -304,6 +315,25 @@ cJSON *good_resolve_checked_first(cJSON * const object, const char *pointer)
     return current;
 }
 
+/* ESC4: a decoded name read as a token again */
+static cJSON *h_member_by_token(const cJSON * const object, const unsigned char * const token)
+{
+    cJSON *m = object->child;
+    while ((m != NULL) && !compare_pointers((unsigned char*)m->string, token, 1)) { m = m->next; }
+    return m;
+}
+cJSON *bad_ESC4_decoded_token(cJSON *parent, unsigned char *last)
+{
+    decode_pointer_inplace(last);
+    return h_member_by_token(parent, last);
+}
+cJSON *good_decoded_name(cJSON *parent, unsigned char *last)
+{
+    cJSON *found = h_member_by_token(parent, last);
+    decode_pointer_inplace(last);
+    return (found != NULL) ? found : cJSON_GetObjectItemCaseSensitive(parent, (char*)last);
+}
+
 /* LST1 (relinker calls, stale order) */
 static cJSON *sort_list(cJSON *list, const cJSON_bool case_sensitive) { (void)case_sensitive; if (list && list->next) { cJSON *n = list->next; n->next = list; list->next = NULL; n->prev = NULL; list->prev = n; return n; } return list; }
 static void bad_LST1_sort_same_head(cJSON * const object)
@@ -358,7 +388,7 @@ int utils_bad_use_all(cJSON *o, unsigned char *b, char *c)
 {
     (void)compare_pointers(b, b, 1); decode_pointer_inplace(b); (void)apply_patch(o, o, 1);
     (void)bad_TAB8_digit(b, 0); (void)good_digit(b, 0); (void)bad_TAB8_negated(b, 0); (void)good_two_ranges(1, 2); (void)bad_TAB8_vars(1, 2);
-    (void)bad_TAB11_const_flag(o, c, 1); (void)bad_TAB11_fold(o, c, 1); (void)good_fold_in_false_arm(o, c, 1);
+    (void)bad_TAB11_const_flag(o, c, 1); (void)bad_TAB11_fold(o, c, 1); (void)good_fold_in_false_arm(o, c, 1); (void)bad_TAB11_exact_helper(o, c, 0); (void)good_exact_in_true_arm(o, c, 0);
     bad_LST1_set_child(o, o); good_set_child(o, o, o); good_set_child_via_parent(o, o, o); good_reference(o, o); good_clear_child(o);
     bad_OUT5_gap(b, b); bad_OUT5_skip_two(b, b); good_copy(b, b); good_copy_postinc(b, b); bad_OUT6_overtake(c); good_inplace(c);
     return 0;
